@@ -19,6 +19,31 @@ REPS = 40
 
 # ------------------------------------------------------------------ running the harness
 
+PIECE = 150          # cases per harness process
+CPU_PER_CASE = 20    # seconds of CPU time a single case may use (a rep-40 case needs about 0.1 s)
+
+
+def _run_piece(exe, wd, env, piece, cpu_limit):
+    """one harness process over `piece`; the limit is CPU time of the child (RLIMIT_CPU), so machine load cannot
+    produce a HANG verdict; the wall timeout is only a last resort against a child that sleeps for ever"""
+    import resource
+    script = []
+    for c in piece:
+        script.append("case %s %s %s %s %s %d" % (c["id"], c.get("mode", "RDWR"), c.get("p0", "none"), c.get("p1", "none"), c.get("enc1", "none"), c.get("verbose", 0)))
+        script += c["cmds"]
+
+    def lim():
+        resource.setrlimit(resource.RLIMIT_CPU, (cpu_limit, cpu_limit + 5))
+    try:
+        p = subprocess.run([exe, wd], input=("\n".join(script) + "\n").encode(), stdout=subprocess.PIPE,
+                           stderr=subprocess.STDOUT, env=env, timeout=max(1800, 40 * cpu_limit), preexec_fn=lim)
+        out, rc = p.stdout.decode("utf-8", "replace"), p.returncode
+        timed_out = rc in (-24, -9) or rc == 152       # SIGXCPU / SIGKILL from the CPU limit
+    except subprocess.TimeoutExpired as ex:
+        out, rc, timed_out = (ex.stdout or b"").decode("utf-8", "replace"), 124, True
+    return out, rc, timed_out
+
+
 def run_chunk(args):
     exe, wd, cases = args
     env = dict(os.environ)
@@ -26,17 +51,10 @@ def run_chunk(args):
     env["UBSAN_OPTIONS"] = "print_stacktrace=0"
     res = {}
     todo = list(cases)
+    single = False      # after a CPU-limit hit the suspected case is run alone before it is called a hang
     while todo:
-        script = []
-        for c in todo:
-            script.append("case %s %s %s %s %s %d" % (c["id"], c.get("mode", "RDWR"), c.get("p0", "none"), c.get("p1", "none"), c.get("enc1", "none"), c.get("verbose", 0)))
-            script += c["cmds"]
-        try:
-            p = subprocess.run([exe, wd], input=("\n".join(script) + "\n").encode(), stdout=subprocess.PIPE,
-                               stderr=subprocess.STDOUT, env=env, timeout=240)
-            out, rc = p.stdout.decode("utf-8", "replace"), p.returncode
-        except subprocess.TimeoutExpired as ex:
-            out, rc = (ex.stdout or b"").decode("utf-8", "replace") + "\nHANG process", 124
+        piece = todo[:1] if single else todo[:PIECE]
+        out, rc, timed_out = _run_piece(exe, wd, env, piece, CPU_PER_CASE * (3 if single else len(piece)))
         cur = None
         for ln in out.split("\n"):
             m = re.match(r"CASE (\S+) open_err (-?\d+)", ln)
@@ -45,17 +63,25 @@ def run_chunk(args):
                 res[cur] = {"open_err": int(m.group(2)), "out": [], "crash": None}
             elif cur is not None:
                 res[cur]["out"].append(ln)
-        ids = [c["id"] for c in todo]
-        if rc != 0:
-            # the last case that started is the one that died
-            last = cur if cur is not None else ids[0]
-            if last not in res:
-                res[last] = {"open_err": None, "out": [], "crash": None}
-            res[last]["crash"] = "rc=%d\n" % rc + "\n".join(res[last]["out"][:3] + res[last]["out"][-60:])
-            k = ids.index(last) if last in ids else 0
-            todo = todo[k + 1:]
-        else:
-            todo = []
+        ids = [c["id"] for c in piece]
+        if rc == 0:
+            todo = todo[len(piece):]
+            single = False
+            continue
+        last = cur if cur is not None else ids[0]
+        k = ids.index(last) if last in ids else 0
+        if timed_out and not single:
+            # which case used up the budget is unknown: run the one that was in progress alone
+            res.pop(last, None)
+            todo = todo[k:]
+            single = True
+            continue
+        if last not in res:
+            res[last] = {"open_err": None, "out": [], "crash": None}
+        res[last]["crash"] = "rc=%d\n" % rc + "\n".join(res[last]["out"][:3] + res[last]["out"][-60:]) + \
+            ("\nHANG: the case alone used more than %d s of CPU time" % (3 * CPU_PER_CASE) if timed_out else "")
+        todo = todo[k + 1:]
+        single = False
     shutil.rmtree(wd, ignore_errors=True)
     return res
 
